@@ -200,23 +200,27 @@ namespace ASV.Packing.Spec
 open ASV ASV.Packing
 
 /-- a collection's location on a record of length `L`: one non-empty part inside the record, or
-    the two forward halves `[s, L) + [0, e)` of an origin-spanning area, which leave at least one
-    base of the record uncovered (`e < s`: an `Area` stores only start/end numbers, so `e = s`
-    would be indistinguishable from an empty area; the detection code always leaves a gap) -/
+    the two forward halves `[s, L) + [0, e)` of an origin-spanning area, which do not overlap
+    (`e ≤ s`; `e = s` is an area or region that tiles the whole record from `s` back to `s`) -/
 def collOK (L : Int) : Loc → Bool
   | .simple p => decide (0 ≤ p.lo) && decide (p.lo < p.hi) && decide (p.hi ≤ L)
   | .compound [p, q] =>
-    p.strand == .fwd && q.strand == .fwd && q.lo == 0 && decide (0 < q.hi) && decide (q.hi < p.lo)
+    p.strand == .fwd && q.strand == .fwd && q.lo == 0 && decide (0 < q.hi) && decide (q.hi ≤ p.lo)
       && decide (p.lo < p.hi) && p.hi == L
   | .compound _ => false
 
+/-- the location tiles the whole record from a position back to itself: `[s, L) + [0, s)` -/
+def tilesRecord : Loc → Bool
+  | .compound [p, q] => q.hi == p.lo
+  | _ => false
+
 /-- a child area of the region: well-formed, inside the region, origin-spanning only on a
-    circular record; a protocluster's core is well-formed and inside the protocluster, and an
-    origin-spanning core needs an origin-spanning protocluster -/
+    circular record; a protocluster's core is well-formed, does not itself tile the whole record, lies
+    inside the protocluster, and an origin-spanning core needs an origin-spanning protocluster -/
 def featOK (c : Ctx) (f : Feat) : Bool :=
   collOK c.L f.loc && locationContainsOther c.region f.loc && (!f.crosses || c.circular)
     && (f.kind != .proto
-        || (collOK c.L f.core && locationContainsOther f.loc f.core
+        || (collOK c.L f.core && !tilesRecord f.core && locationContainsOther f.loc f.core
             && (!decide (f.core.parts.length > 1) || f.crosses)))
 
 def regionOK (c : Ctx) : Bool :=
